@@ -7,14 +7,24 @@ RC_ASSUME = [
 ]
 
 
-def rc_jobs(profile, prop, relevant, s_secs=(20, 300), p_secs=(8, 90), asan=True, miri=False, extra=None):
-    jobs = [
+def rc_jobs(profile, prop, relevant, s_secs=(20, 300), p_secs=(8, 90), asan=True, miri=False, extra=None, focused=None):
+    jobs = []
+    if focused:
+        jobs += [
+            dict(name=f"{focused}-S", variant="debug", stage=0,
+                 args=["rc", "--profile", focused, "--mode", "S", "--prop", prop, "--relevant", relevant],
+                 shards=dict(quick=8, thorough=16), secs=dict(quick=s_secs[0], thorough=s_secs[1])),
+            dict(name=f"{focused}-P-release", variant="release", stage=1, threads=3,
+                 args=["rc", "--profile", focused, "--mode", "P", "--prop", prop, "--relevant", relevant],
+                 shards=dict(quick=2, thorough=5), secs=dict(quick=p_secs[0], thorough=p_secs[1])),
+        ]
+    jobs += [
         dict(name=f"{profile}-S", variant="debug", stage=0,
              args=["rc", "--profile", profile, "--mode", "S", "--prop", prop, "--relevant", relevant],
-             shards=dict(quick=16, thorough=16), secs=dict(quick=s_secs[0], thorough=s_secs[1])),
+             shards=dict(quick=8 if focused else 16, thorough=16), secs=dict(quick=s_secs[0], thorough=s_secs[1])),
         dict(name=f"{profile}-P-release", variant="release", stage=1, threads=3,
              args=["rc", "--profile", profile, "--mode", "P", "--prop", prop, "--relevant", relevant],
-             shards=dict(quick=5, thorough=5), secs=dict(quick=p_secs[0], thorough=p_secs[1])),
+             shards=dict(quick=3 if focused else 5, thorough=5), secs=dict(quick=p_secs[0], thorough=p_secs[1])),
         dict(name=f"{profile}-P-debug", variant="debug", stage=1, threads=3, tiers=["thorough"],
              args=["rc", "--profile", profile, "--mode", "P", "--prop", prop, "--relevant", relevant],
              shards=dict(thorough=5), secs=dict(thorough=p_secs[1])),
@@ -38,17 +48,17 @@ RULE_RC = ("executions = random API programs (2-4 threads, <=40 ops each, 2-3 ro
 
 CHECKS = {
     "C01": dict(
-        jobs=rc_jobs("c01", "C01", "shared_destruct,inc_from_zero"),
+        jobs=rc_jobs("c01", "C01", "shared_destruct,inc_from_zero", focused="c01f"),
         rule=RULE_RC + "the execution contained a destruct attempt on an object that >=2 threads touched, or an increment from a zero count",
         accept=["C01"], assumptions=RC_ASSUME, floor=dict(quick=50, thorough=500),
     ),
     "C02": dict(
-        jobs=rc_jobs("c02", "C02", "snap_destruct"),
+        jobs=rc_jobs("c02", "C02", "snap_destruct", focused="c02f"),
         rule=RULE_RC + "the execution contained a destruct attempt (root or cascade) on an object for which a Snapshot record existed",
         accept=["C02"], assumptions=RC_ASSUME, floor=dict(quick=50, thorough=500),
     ),
     "C03": dict(
-        jobs=rc_jobs("c03", "C03", "weak_dealloc"),
+        jobs=rc_jobs("c03", "C03", "weak_dealloc", focused="c03f"),
         rule=RULE_RC + "the execution deallocated an object that had at least one weak holder",
         accept=["C03"], assumptions=RC_ASSUME, floor=dict(quick=50, thorough=500),
     ),
@@ -58,7 +68,7 @@ CHECKS = {
         accept=["C04"], assumptions=RC_ASSUME, floor=dict(quick=50, thorough=500),
     ),
     "C05": dict(
-        jobs=rc_jobs("c05", "C05", "upgrade_race"),
+        jobs=rc_jobs("c05", "C05", "upgrade_race", focused="c05f"),
         rule=RULE_RC + "an upgrade whose interval overlaps or follows a destruct attempt on its target",
         accept=["C05"], assumptions=RC_ASSUME, floor=dict(quick=20, thorough=200),
     ),
